@@ -326,18 +326,24 @@ theorem plan_dump_ok (fs : Fs) (x : Handle) (sid : Nat) (b : Bytes) (h : (plan f
 theorem killProc_fs (w : World) (proc : Nat) : (killProc w proc).fs = w.fs := rfl
 
 /-- whatever an event does to the shared tree is what one registry call — on a listed release — leaves behind, at its
-end or at some crash point -/
+end, at some crash point, or where a transient fault makes it raise -/
 theorem applyH_left (w : World) (e : HEv) :
-    ∃ a, ActOk w.fs a ∧ LeftByAct w.fs a (applyH Impl.repaired w e).fs := by
+    ∃ a, ActOk w.fs a ∧ LeftByActF w.fs a (applyH Impl.repaired w e).fs := by
   cases e with
   | run h op =>
-    exact ⟨actOf w h op, actOf_ok w h op, Or.inl (perform_act w h op).1⟩
+    exact ⟨actOf w h op, actOf_ok w h op, Or.inl (Or.inl (perform_act w h op).1)⟩
   | die h op k cut =>
     simp only [applyH]
     split
-    · exact ⟨.idle, trivial, Or.inl rfl⟩
-    · refine ⟨actOf w h op, actOf_ok w h op, Or.inr ⟨k, cut, ?_⟩⟩
+    · exact ⟨.idle, trivial, Or.inl (Or.inl rfl)⟩
+    · refine ⟨actOf w h op, actOf_ok w h op, Or.inl (Or.inr ⟨k, cut, ?_⟩)⟩
       simp only [killProc_fs, (perform_act w h op).2]
+  | fault h op j =>
+    simp only [applyH]
+    split
+    · exact ⟨.idle, trivial, Or.inl (Or.inl rfl)⟩
+    · refine ⟨actOf w h op, actOf_ok w h op, Or.inr ⟨j, ?_⟩⟩
+      simp only [faultTree, (perform_act w h op).2]
 
 /-! ### invariants along a history -/
 
@@ -349,7 +355,7 @@ theorem playH_append (impl : Impl) (w : World) (evs evs' : List HEv) :
 
 theorem applyH_good2 (w : World) (g2 : Good2 w.fs) (e : HEv) : Good2 (applyH Impl.repaired w e).fs := by
   obtain ⟨a, ok, hl⟩ := applyH_left w e
-  exact (act_left w.fs g2 a ok _ hl).1
+  exact (act_left_F w.fs g2 a ok _ hl).1
 
 theorem playH_good2_from (evs : List HEv) : ∀ w, Good2 w.fs → Good2 (playH Impl.repaired w evs).fs := by
   induction evs with
@@ -363,7 +369,7 @@ theorem playH_good2 (evs : List HEv) : Good2 (playH Impl.repaired World.empty ev
 theorem applyH_append_only (w : World) (g2 : Good2 w.fs) (e : HEv) (key : Path) (n : Node)
     (hvis : vis w.fs key = some n) : vis (applyH Impl.repaired w e).fs key = some n := by
   obtain ⟨a, ok, hl⟩ := applyH_left w e
-  exact act_append_only w.fs g2 a ok _ hl key n hvis
+  exact act_append_only_F w.fs g2 a ok _ hl key n hvis
 
 /-- **cache coherence**: every tag a process has cached is the tag a fresh reader reads for that generation -/
 def TagsOk (w : World) : Prop :=
@@ -482,6 +488,11 @@ theorem applyH_tagsOk (w : World) (g2 : Good2 w.fs) (tk : TagsOk w) (e : HEv) : 
     · exact keep en hen
     · simp only [killProc, List.mem_filter] at hen
       exact keep en hen.1
+  | fault h op j =>
+    simp only [applyH] at hen
+    split at hen
+    · exact keep en hen
+    · exact keep en hen
 
 theorem playH_tagsOk_from (evs : List HEv) :
     ∀ w, Good2 w.fs → TagsOk w → TagsOk (playH Impl.repaired w evs) := by
